@@ -4,7 +4,7 @@
 (* datagram of one kind; its named fields are the paths of its JSON tree   *)
 (* (numbered 1..NFields[t]; the Go harness owns the numbering and prints   *)
 (* it).  A mutation removes, nulls, empties a field or replaces it by a    *)
-(* bogus or wrong-kind value.  Delivering any mutated message in any       *)
+(* bogus, wrong-kind or swapped (valid, but not fitting) value.  Delivering any mutated message in any       *)
 (* connection phase keeps the stack alive: handling returns, and every     *)
 (* connected peer still gets its detailed discovery read answered.         *)
 (* The specification enumerates the deliveries; the monitor (RobustTrace)  *)
@@ -14,7 +14,7 @@ EXTENDS Naturals, Sequences, FiniteSets, TLC, Json, Randomization
 
 CONSTANTS Templates, NFields, Phases, Mode, MaxSeq, Sample, JunkKinds
 
-Ops == {"drop", "null", "empty", "bogus", "wrongkind"}
+Ops == {"drop", "null", "empty", "bogus", "wrongkind", "swap"}
 Mut(f, op) == [f |-> f, op |-> op]
 Delivery(t, muts, j) == [tmpl |-> t, muts |-> muts, junk |-> j]
 Singles(t) == {Delivery(t, {Mut(f, op)}, 0) : f \in 1..NFields[t], op \in Ops}
